@@ -1,23 +1,23 @@
 #!/usr/bin/env python3
 """tools/try_seed.py <dir with patch.diff [demo.py]> <property id> [more ids]
 
-Applies the patch to a scratch worktree of /repo (under $TMPDIR, removed afterwards), runs the pinned test-suite and the
+Applies the patch to a scratch copy of /repo's working tree (under $TMPDIR, removed afterwards), runs the pinned test-suite and the
 demonstration there, then runs ./check <id> --tier quick against that tree (PYVC_REPO) with evidence redirected, and prints a
 one-line verdict per check.  /repo itself is not touched."""
 import json, os, shutil, subprocess, sys, tempfile, time
 V = os.path.dirname(os.path.dirname(os.path.abspath(__file__)))
 d = os.path.abspath(sys.argv[1])
 props = sys.argv[2:]
-tmp = tempfile.mkdtemp(prefix="seedtry_")
-wt = os.path.join(tmp, "repo")
+sys.path.insert(0, V)
+from pyvc import canary
+tmp, wt = canary.scratch_copy("/repo")
 res = {"dir": d, "props": {}}
 try:
-    subprocess.run(["git", "-C", "/repo", "worktree", "add", "-q", "--detach", wt, "HEAD"], check=True)
     demo = os.path.join(d, "demo.py")
     if os.path.exists(demo):
         p = subprocess.run(["/venv/bin/python", demo], cwd=wt, capture_output=True, text=True, timeout=600)
         res["demo_clean_exit"] = p.returncode
-    p = subprocess.run(["git", "-C", wt, "apply", os.path.join(d, "patch.diff")], capture_output=True, text=True)
+    p = subprocess.run(["git", "apply", "--unsafe-paths", "--directory=" + wt, os.path.join(d, "patch.diff")], capture_output=True, text=True, cwd=tmp)
     res["applies"] = p.returncode == 0
     if p.returncode != 0:
         res["apply_error"] = p.stderr[-400:]
@@ -30,13 +30,12 @@ try:
             p = subprocess.run(["/venv/bin/python", demo], cwd=wt, capture_output=True, text=True, timeout=600)
             res["demo_mutant_exit"] = p.returncode
             res["demo_tail"] = (p.stdout + p.stderr).strip()[-300:]
-        env = dict(os.environ, PYVC_REPO=wt, PYVC_EVIDENCE_DIR=os.path.join(tmp, "evidence"))
+        env = dict(os.environ, PYVC_REPO=wt, PYVC_EVIDENCE_DIR=os.path.join(tmp, "evidence"), PYVC_NO_CANARIES="1")
         for pr in props:
             t0 = time.time()
             p = subprocess.run([os.path.join(V, "check"), pr, "--tier", "quick"], capture_output=True, text=True, env=env, timeout=3600)
             lines = [l for l in p.stdout.splitlines() if l.startswith(("VIOLATION", "UNDECIDED", "CHECKER-ERROR", "KNOWN-FINDING"))]
             res["props"][pr] = {"exit": p.returncode, "secs": round(time.time() - t0, 1), "lines": lines[:12]}
 finally:
-    subprocess.run(["git", "-C", "/repo", "worktree", "remove", "--force", wt])
     shutil.rmtree(tmp, ignore_errors=True)
 print(json.dumps(res, indent=1))
